@@ -13,11 +13,13 @@ TITLE = 'latex2text is total: a string for every input and option set'
 BS = '\\'
 OPTS = {
     'default': dict(),
-    'verb_strict': dict(math_mode='verbatim', strict_latex_spaces=True, keep_comments=True, keep_braced_groups=True,
-                        fill_text=True),
+    'verb_strict': dict(math_mode='verbatim', strict_latex_spaces=True, keep_comments=True, keep_braced_groups=True),
+    'verb_strict_fill': dict(math_mode='verbatim', strict_latex_spaces=True, keep_comments=True, keep_braced_groups=True,
+                             fill_text=True),
     'delims_macros': dict(math_mode='with-delimiters', strict_latex_spaces='macros', keep_comments=True),
-    'remove_source': dict(math_mode='remove', strict_latex_spaces='based-on-source', keep_braced_groups=True, fill_text=20),
-    'text_except': dict(math_mode='text', strict_latex_spaces='except-in-equations', fill_text=True),
+    'remove_source': dict(math_mode='remove', strict_latex_spaces='based-on-source', keep_braced_groups=True),
+    'text_except': dict(math_mode='text', strict_latex_spaces='except-in-equations'),
+    'text_except_fill': dict(math_mode='text', strict_latex_spaces='except-in-equations', fill_text=20),
     'verb_fill': dict(math_mode='verbatim', strict_latex_spaces=False, keep_comments=False, fill_text=10,
                       keep_braced_groups=True, keep_braced_groups_minlen=0),
 }
@@ -124,7 +126,14 @@ def conditions(tier):
     conds = []
     SM = [dict(s=x) for x in ('', 'a', BS, 'ab' + BS, BS + 'item', BS + 'frac', '$', '{', '}', BS + 'begin{a}', '%',
                               BS + 'input{x}', BS + 'href', BS + 'verb', 'a}b', BS + 'textbf$')]
-    opts = list(OPTS) if not quick else ['default', 'verb_strict', 'remove_source']
+    # fill_text re-wraps with re/textwrap, which CrossHair models unfaithfully on symbolic strings: option sets with
+    # fill_text are used only where the document is concrete on every path (name sweep) and in concrete-only conditions
+    FILL = ('verb_strict_fill', 'text_except_fill', 'verb_fill')
+    opts = [o for o in OPTS if o not in FILL] if not quick else ['default', 'verb_strict', 'remove_source']
+    for o in FILL:
+        conds.append(Cond('concrete_fill_' + o, 's: str', [], 'body_total(s, %r)' % o, concrete_only=True, twin=False,
+                          smoke=SM + [dict(s=x) for x in ('a b c d e f g h i j k l m n o p', 'a\n\n b $c$ \\[d\\] %e\n f',
+                                                          BS + 'begin{itemize}' + BS + 'item a b c d e f g' + BS + 'end{itemize}')]))
     n = 2 if quick else 3
     for o in opts:
         conds.append(Cond('total_%s_le%d' % (o, n - 1), 's: str', ['len(s) <= %d' % (n - 1)], 'body_total(s, %r)' % o,
@@ -165,7 +174,7 @@ def conditions(tier):
                                   descr='macro names %s .. %s' % (MACROS[lo], MACROS[hi - 1])))
     for lo in range(0, len(ENVS), 8):
         hi = min(len(ENVS), lo + 8)
-        for o in (['verb_strict'] if quick else opts):
+        for o in (['verb_strict_fill'] if quick else list(opts) + ['verb_strict_fill']):
             conds.append(Cond('envs_%03d_%s' % (lo, o), 'k: int', ['%d <= k < %d' % (lo, hi)],
                               'body_env(k, %d, %d, %r)' % (lo, hi, o), timeout=T, cost=3, twin=False,
                               smoke=[dict(k=lo), dict(k=hi - 1)],
@@ -187,5 +196,5 @@ META = dict(
                 thorough='length <= 3 under 6 option sets; name sweep under all 6 option sets'),
     stubs=['logging disabled', 'step budget on LatexTokenReader.peek_token stands for "bounded time"',
            'no input directory configured (\\input reads nothing)'],
-    outside=['two unknown names in one input', 'inputs longer than the bound other than the listed uses', 'option values outside OPTS'],
+    outside=['fill_text on symbolic input (only on the concrete name-sweep documents and a few concrete strings)', 'two unknown names in one input', 'inputs longer than the bound other than the listed uses', 'option values outside OPTS'],
 )
